@@ -345,10 +345,87 @@ def suite_real_mp(ctx):
             ctx.fail("_spatial_mp", f"multi-process run raised {type(e).__name__}: {e}", inp, size=n)
 
 
+def _kd_points(rng, kind, n, dim):
+    """source points: distinct / on a coarse lattice (many coincident points and exact distance ties) / with duplicated rows (overlapping scans)"""
+    pts = np.array([[rng.uniform(-1, 1) for _ in range(dim)] for _ in range(n)]).reshape(n, dim)
+    if kind == "lattice":
+        pts = np.round(pts * 4) / 4
+    elif kind == "duplicated" and n >= 2:
+        m = rng.randrange(1, n)
+        pts[m:] = pts[[rng.randrange(0, m) for _ in range(n - m)]]
+        pts = pts[rng.sample(range(n), n)]
+    return np.ascontiguousarray(pts)
+
+
+def suite_real_kdtree_params(ctx):
+    """cKDTree_MP.query(x, k, eps, p, distance_upper_bound) of a tree built with (data, leafsize) against the single-process query it
+    parallelises, scipy.spatial.cKDTree(data, leafsize).query(x, k, eps, p, distance_upper_bound): every argument of the constructor and
+    of the query over its range, bitwise.  Each query point is answered on its own, so the partition of the query set among the workers
+    cannot show - also where the answer depends on the layout of the tree (approximate queries eps > 0, coincident source points,
+    equidistant neighbours) or on the metric (Minkowski p)."""
+    import inspect
+    import scipy.spatial as sp
+    from pyresample._spatial_mp import cKDTree_MP
+    r = ctx.rng
+    default_leaf = inspect.signature(cKDTree_MP.__init__).parameters["leafsize"].default
+    for rep in range(70 if ctx.quick else 700):
+        dim = r.choice([2, 3, 3])
+        nd = r.choice([1, 2, 5, 17, 50, 200, 200, 600, 600])
+        dkind = r.choice(["distinct", "lattice", "duplicated"])
+        data = _kd_points(r, dkind, nd, dim)
+        nq = r.choice([1, 7, 100, 257, 401])
+        q = _kd_points(r, r.choice(["distinct", "distinct", "lattice"]), nq, dim)
+        if r.random() < 0.4:       # query points that coincide with source points: zero distances, ties among coincident sources
+            for j in range(0, nq, 2):
+                q[j] = data[r.randrange(nd)]
+        leafsize = r.choice([None, None, 1, 2, 3, 5, 8, 10, 15, 16, 32])
+        k = r.choice([1, 1, 2, 4])
+        eps = r.choice([0, 0, 0.1, 0.5, 1.0, 3.0])
+        pnorm = r.choice([2, 2, 1, 3, float("inf"), 1.5])
+        dub = r.choice([float("inf"), float("inf"), 0.8, 0.25])
+        nprocs, chunk, kind = r.choice([2, 3, 4]), r.choice([None, 1, 5, 13, 64]), r.choice(KINDS)
+        leaf_eff = default_leaf if leafsize is None else leafsize
+        inp = {"n_data": nd, "dim": dim, "data_kind": dkind, "n_query": nq, "leafsize": "default" if leafsize is None else leafsize, "k": k, "eps": eps, "p": pnorm,
+               "distance_upper_bound": dub, "nprocs": nprocs, "chunk": chunk, "schedule": kind}
+        try:
+            tree = cKDTree_MP(data, nprocs=nprocs, chunk=chunk, schedule=kind) if leafsize is None else \
+                cKDTree_MP(data, leafsize=leafsize, nprocs=nprocs, chunk=chunk, schedule=kind)
+            d, i = tree.query(q, k=k, eps=eps, p=pnorm, distance_upper_bound=dub)
+        except Exception as e:  # noqa
+            ctx.fail("cKDTree_MP.query", f"multi-process run raised {type(e).__name__}: {e}", inp, tags={"cause": "raises"}, size=nq + nd)
+            continue
+        single = sp.cKDTree(data, leafsize=leaf_eff)
+        d1, i1 = single.query(q, k=k, eps=eps, p=pnorm, distance_upper_bound=dub)
+        # what this case can tell apart (single-process only): another tree layout, the Euclidean metric
+        d2, i2 = sp.cKDTree(data, leafsize=4 * max(leaf_eff, 16)).query(q, k=k, eps=eps, p=pnorm, distance_upper_bound=dub)
+        layout_sensitive = not (np.array_equal(d1, d2) and np.array_equal(i1, i2))
+        d3, i3 = single.query(q, k=k, eps=eps, p=2, distance_upper_bound=dub)
+        metric_sensitive = not (np.array_equal(d1, d3) and np.array_equal(i1, i3))
+        ctx.count("kd.layout_sensitive" if layout_sensitive else "kd.layout_insensitive")
+        if pnorm != 2:
+            ctx.count("kd.metric_sensitive" if metric_sensitive else "kd.metric_insensitive")
+        if d.shape != d1.shape or i.shape != i1.shape or not (np.array_equal(d, d1) and np.array_equal(i, i1)):
+            if d.shape == d1.shape and i.shape == i1.shape:
+                rows = np.nonzero(((d != d1) | (i != i1)).reshape(nq, -1).any(axis=1))[0]
+                j = int(rows[0])
+                obs = {"n_query_points_differing": int(rows.size), "first": {"query_index": j, "query_point": q[j].tolist(), "multi_process": [np.ravel(d[j]).tolist(), np.ravel(i[j]).tolist()],
+                                                                           "single_process": [np.ravel(d1[j]).tolist(), np.ravel(i1[j]).tolist()]}}
+            else:
+                obs = {"shapes": [list(d.shape), list(i.shape)], "single_process_shapes": [list(d1.shape), list(i1.shape)]}
+            if nd <= 50:
+                inp = {**inp, "data": data.tolist()}
+            ctx.fail("cKDTree_MP.query", f"multi-process kd-tree query (leafsize {inp['leafsize']}, k={k}, eps={eps}, p={pnorm}, distance_upper_bound={dub}) differs from "
+                     f"scipy.spatial.cKDTree(data, leafsize={leaf_eff}).query with the same arguments", inp, obs,
+                     tags={"cause": "query-arguments", "layout_sensitive": layout_sensitive, "metric_sensitive": metric_sensitive}, size=nq + nd)
+        ctx.case("real.ckdtree_mp.params", (rep, nd, dim, dkind, nq, leafsize, k, eps, pnorm, dub, nprocs, chunk, kind), nontrivial=layout_sensitive or metric_sensitive or nq > nprocs,
+                 sample={"input": inp, "layout_sensitive": layout_sensitive, "metric_sensitive": metric_sensitive})
+
+
 def run(ctx):
     suite_initchunk(ctx)
     suite_controlled(ctx)
     suite_real_mp(ctx)
+    suite_real_kdtree_params(ctx)
 
 
 def search(ctx):
